@@ -28,7 +28,7 @@ from attr import _make as _attr_make
 import common
 
 ID = "C14"
-TABLES = ["attrsKw", "defineKw", "frozenPartialKw", "fn_determine_whether_to_implement", "fn_attrs_wrap"]
+TABLES = ["attrsKw", "defineKw", "frozenPartialKw", "fn_determine_whether_to_implement", "fn_attrs_wrap", "fn_define_wrap"]
 PARALLEL = True
 BUDGET_S = {"quick": 40, "thorough": 420}
 EXHAUSTIVE = {"quick": False, "thorough": True}
